@@ -35,6 +35,9 @@ type SourceCfg struct {
 	// ReadErrClose: the read error kills the whole stream (acks can no longer be delivered either);
 	// default: only reads fail, the plugin still takes acknowledgments
 	ReadErrClose bool `json:"read_err_close,omitempty"`
+	// StopDelayMs: the plugin's Stop call takes this long; records released meanwhile are still handed over (a
+	// connector that finishes what it is reading before it confirms the stop) and Stop reports the last of them
+	StopDelayMs int `json:"stop_delay_ms,omitempty"`
 	// ReadErrDelayMs: with ReadErrAt < 0 the first read fails only after this delay (the run is healthy for
 	// a while: failures spaced further apart than the recovery window)
 	ReadErrDelayMs int `json:"read_err_delay_ms,omitempty"`
@@ -364,6 +367,10 @@ func (p *Source) CanRelease() bool {
 }
 
 func (p *Source) Stop(context.Context, pconnector.SourceStopRequest) (pconnector.SourceStopResponse, error) {
+	if p.Cfg.StopDelayMs > 0 {
+		p.W.Log.Add("SrcStopping", "src", p.Cfg.ID)
+		time.Sleep(time.Duration(p.Cfg.StopDelayMs) * time.Millisecond)
+	}
 	p.mu.Lock()
 	defer p.mu.Unlock()
 	p.stopped = true
